@@ -156,7 +156,14 @@ impl<'a> ExpressionVisitor<'a> for CodeBuilder<'a> {
                     e => to_operation_type_error("array", e),
                 })?;
             }
-            let ty = TypeKind::List(Box::new(to_concrete_type("array", elem_t)?));
+            let elem_ty = to_concrete_type("array", elem_t)?;
+            if elem_ty == TypeKind::VOID {
+                return Err(ExpressionError::OperationOnUnsupportedType(
+                    "array".to_owned(),
+                    TypeDesc::VOID,
+                ));
+            }
+            let ty = TypeKind::List(Box::new(elem_ty));
             Ok(self.emit_result(ty.clone(), Rvalue::MakeList(ty, operands), byte_range))
         } else {
             Ok(Operand::Constant(Constant::new(
